@@ -1,6 +1,8 @@
 import SeqVerif.Model.DedupLemmas
 import SeqVerif.Proofs.C03FracProofs
 import SeqVerif.Model.WritePathInv
+import SeqVerif.Model.WPConcurrent
+import SeqVerif.Model.FetchArrange
 /-!
 # C17 composed with C03 (sealing) and C01 (replay) - glue definitions and lemmas
 
@@ -64,5 +66,50 @@ theorem restart_same_store (h1 h2 : List SV.WPath.Ev) (hwf : ∀ e ∈ h1, e.WF)
     SV.WPath.InvD_unique _ _ _ (SV.WPath.restart_inv _ [] [] _ _ hinv.wf (.inl rfl) hinv.docs hinv.mfile).2 hinv
   simp only [SV.WPath.run, List.foldl_append, List.foldl_cons, SV.WPath.step] at hr ⊢
   rw [hr]
+
+/-- the store after any well-formed history is a fixpoint of the (repaired) start-up: restarting it changes nothing -/
+theorem restart_fixpoint (h : List SV.WPath.Ev) (hwf : ∀ e ∈ h, e.WF) :
+    SV.WPath.restart true (SV.WPath.run true SV.WPath.init h).docs (SV.WPath.run true SV.WPath.init h).mfile
+      = SV.WPath.run true SV.WPath.init h := by
+  have hinv := SV.WPath.run_fixed h SV.WPath.init [] SV.WPath.inv_init hwf
+  exact SV.WPath.InvD_unique _ _ _ (SV.WPath.restart_inv _ [] [] _ _ hinv.wf (.inl rfl) hinv.docs hinv.mfile).2 hinv
+
+theorem run_not_panicked (h : List SV.WPath.Ev) (hwf : ∀ e ∈ h, e.WF) :
+    (SV.WPath.run true SV.WPath.init h).panicked = false :=
+  (SV.WPath.run_fixed h SV.WPath.init [] SV.WPath.inv_init hwf).up
+
+/-- two concurrent `ActiveWriter.Write` calls under the mutex (`SV.WPath.crun true`, C01's `serial_run` /
+`c01_mutex_serialises`), both finished: the store is the store of a history that ends with the two bulks in one of
+the two orders -/
+theorem concurrent_writers_serial (h : List SV.WPath.Ev) (hwf : ∀ e ∈ h, e.WF) (a b : SV.WPath.Blk × SV.WPath.Blk)
+    (sched : List Bool)
+    (hfin : (SV.WPath.crun true (SV.WPath.enc a.1) (SV.WPath.enc a.2) (SV.WPath.enc b.1) (SV.WPath.enc b.2)
+      (SV.WPath.cinit (SV.WPath.run true SV.WPath.init h)) sched).pa = 3 ∧
+      (SV.WPath.crun true (SV.WPath.enc a.1) (SV.WPath.enc a.2) (SV.WPath.enc b.1) (SV.WPath.enc b.2)
+      (SV.WPath.cinit (SV.WPath.run true SV.WPath.init h)) sched).pb = 3) :
+    (SV.WPath.crun true (SV.WPath.enc a.1) (SV.WPath.enc a.2) (SV.WPath.enc b.1) (SV.WPath.enc b.2)
+      (SV.WPath.cinit (SV.WPath.run true SV.WPath.init h)) sched).st
+        = SV.WPath.run true SV.WPath.init (h ++ [.bulk a.1 a.2, .bulk b.1 b.2]) ∨
+    (SV.WPath.crun true (SV.WPath.enc a.1) (SV.WPath.enc a.2) (SV.WPath.enc b.1) (SV.WPath.enc b.2)
+      (SV.WPath.cinit (SV.WPath.run true SV.WPath.init h)) sched).st
+        = SV.WPath.run true SV.WPath.init (h ++ [.bulk b.1 b.2, .bulk a.1 a.2]) := by
+  have hs := SV.WPath.serial_run (SV.WPath.run true SV.WPath.init h) (SV.WPath.enc a.1) (SV.WPath.enc a.2)
+    (SV.WPath.enc b.1) (SV.WPath.enc b.2) sched (SV.WPath.cinit _) (.inl ⟨rfl, rfl, rfl, rfl⟩)
+  have hup := run_not_panicked h hwf
+  have e1 : ∀ x y : SV.WPath.Blk × SV.WPath.Blk, SV.WPath.run true SV.WPath.init (h ++ [.bulk x.1 x.2, .bulk y.1 y.2])
+      = SV.WPath.append (SV.WPath.append (SV.WPath.run true SV.WPath.init h) (SV.WPath.enc x.1) (SV.WPath.enc x.2))
+          (SV.WPath.enc y.1) (SV.WPath.enc y.2) := by
+    intro x y
+    simp only [SV.WPath.run, List.foldl_append, List.foldl_cons, List.foldl_nil, SV.WPath.step]
+    have hup' : (List.foldl (SV.WPath.step true) SV.WPath.init h).panicked = false := hup
+    simp [hup', SV.WPath.append]
+  rw [e1 a b, e1 b a]
+  simp only [SV.WPath.Serial] at hs
+  obtain ⟨ha, hb⟩ := hfin
+  rcases hs with hs | hs | hs | hs | hs | hs | hs | hs | hs | hs | hs | hs <;>
+    first
+    | exact hs.2.2.2
+    | exact absurd (ha.symm.trans hs.1) (by decide)
+    | exact absurd (hb.symm.trans hs.2.1) (by decide)
 
 end SV.C17Compose
